@@ -30,7 +30,7 @@ RULE = (
     "specification Py.Slice.range for steps +-1..3 on the same bounds. ports: pairs of ports over 2 node indices, "
     "offsets {-1,0,1}, both classes, varying metadata and _num_out_ports. build: random builder programs "
     "(add_node with explicit count, add_op/add/extend with Custom, Noop, MakeTuple, UnpackTuple, Tag; call on defined and "
-    "declared functions; load; insert_nested/cfg/conditional/tail_loop; nested Dfg/Cfg/Conditional/TailLoop builders) "
+    "declared functions, also row-polymorphic ones instantiated at rows of length 0..3; load; insert_nested/cfg/conditional/tail_loop; nested Dfg/Cfg/Conditional/TailLoop builders) "
     "with type rows of length 0..4. Non-trivial = a get/pyslice case whose result is an error or a non-empty port list, "
     "a ports case, a build case returning at least one handle with >= 1 output; distinct by full spec."
 )
@@ -138,6 +138,10 @@ def _rand_step(rng, depth):
         st["declare_first"] = rng.random() < 0.5
         st["ins"] = _row(rng, 0, 3)
         st["outs"] = _row(rng)
+        if rng.random() < 0.35:
+            # the callee is polymorphic over a row of types, instantiated at a row of length 0..3: the call's
+            # outputs are those of the INSTANTIATION
+            st["poly"] = _row(rng, 0, 3)
     elif op == "load_function":
         st["ins"] = _row(rng, 0, 2)
         st["outs"] = _row(rng)
@@ -459,7 +463,25 @@ def _run_step(ctx, root, d, st):
         ctx.fn += 1
         name = f"f{ctx.fn}"
         ins, outs = st["ins"], st["outs"]
-        if st.get("decl") and hasattr(root, "declare_function"):
+        if op == "call" and st.get("poly") is not None and hasattr(root, "declare_function"):
+            rv = tys.RowVariable(0, tys.TypeBound.Any)
+            row = st["poly"]
+            f = root.declare_function(
+                name,
+                tys.PolyFuncType(
+                    [tys.ListParam(tys.TypeTypeParam(tys.TypeBound.Any))],
+                    tys.FunctionType([*_tr(ins), rv], [*_tr(outs), rv]),
+                ),
+            )
+            h = d.call(
+                f,
+                *_mk(d, ins + row),
+                instantiation=tys.FunctionType(_tr(ins + row), _tr(outs + row)),
+                type_args=[tys.SequenceArg([tys.TypeTypeArg(t) for t in _tr(row)])],
+            )
+            rec("call", "Dfg.call(polymorphic)", h, len(outs) + len(row))
+            return
+        elif st.get("decl") and hasattr(root, "declare_function"):
             f = root.declare_function(name, tys.PolyFuncType([], tys.FunctionType(_tr(ins), _tr(outs))))
         elif st.get("declare_first"):
             fb = root.define_function(name, _tr(ins))
